@@ -6,7 +6,7 @@ import json, glob, os, re, sys
 DEST='/verif/seeded'
 notes=json.load(open('/verif/tools/seed_notes2.json'))
 notes.update(json.load(open('/verif/tools/seed_notes3.json')))
-for _n in ('4','5','6'):
+for _n in ('4','5','6','7'):
     if os.path.exists('/verif/tools/seed_notes%s.json'%_n): notes.update(json.load(open('/verif/tools/seed_notes%s.json'%_n)))
 ONLY=sys.argv[1] if len(sys.argv)>1 else ''
 final={}
@@ -18,13 +18,15 @@ for f in sorted(glob.glob(DEST+'/RESULTS.seed*.tsv')):
 rows=[]
 R4LAST=json.load(open('/verif/tools/round4_last_index.json'))
 R5LAST=json.load(open('/verif/tools/round5_last_index.json')) if os.path.exists('/verif/tools/round5_last_index.json') else {}
+R6LAST=json.load(open('/verif/tools/round6_last_index.json')) if os.path.exists('/verif/tools/round6_last_index.json') else {}
 def round_of(key):
     k=int(key.split('-')[1])
     if k<=3: return 1
     if k<=6: return 2
     if k<=9: return 3
     if k<=R4LAST.get(key[:3],99): return 4
-    return 5 if k<=R5LAST.get(key[:3],999) else 6
+    if k<=R5LAST.get(key[:3],999): return 5
+    return 6 if k<=R6LAST.get(key[:3],9999) else 7
 for d in sorted([d for d in glob.glob(DEST+'/C*-*') if os.path.isdir(d) and os.path.exists(d+'/meta.json') and int(d.split('-')[-1])>=4], key=lambda x:(x.split('/')[-1][:3], int(x.split('-')[-1]))):
     key=os.path.basename(d)
     m=json.load(open(d+'/meta.json'))
@@ -38,6 +40,7 @@ for d in sorted([d for d in glob.glob(DEST+'/C*-*') if os.path.isdir(d) and os.p
           'what_breaks': am.get('what_breaks',''), 'needs_to_manifest': am.get('needs_to_manifest',''),
           'violated_clause_as_quoted_by_its_author': am.get('violated_clause',''),
           'hardness_as_judged_by_its_author': am.get('hardness',''),
+          'kind_of_trigger_it_needs': am.get('kind',''),
           'demonstration': am.get('demo',{}),
           'confirmed_by_me': {
              'what_was_run': m.get('what_was_run',''),
